@@ -1,0 +1,9 @@
+//go:build verif
+
+package tsdb
+
+// VerifSeriesFile returns the series file the store holds for a database (Store.seriesFile),
+// nil when the store has none, so that the external verification harness can observe series
+// file membership also for a database whose last shard has been deleted. Add-only; no
+// behaviour of its own.
+func (s *Store) VerifSeriesFile(database string) *SeriesFile { return s.seriesFile(database) }
